@@ -1066,9 +1066,18 @@ fn derive_dot_expression(
             }
         }
 
-        // Grouped expression - unwrap and recurse
+        // Grouped expression - a computed selector. The value of the expression
+        // picks the field or index, so a symbol in it is a binding, not a field name.
         (_, Expression::Grouped(expr, _)) => {
-            derive_dot_expression(pos, left_shape, expr.as_ref(), symbol_table)
+            let key_shape = expr.as_ref().derive_shape(symbol_table);
+            match (left_shape, &key_shape) {
+                (_, Shape::TypeErr(_, _)) => key_shape,
+                (Shape::List(lshape), Shape::Int(_)) => Shape::Narrowed(lshape.clone()),
+                _ => Shape::Narrowed(NarrowedShape {
+                    pos: pos.clone(),
+                    types: NarrowingShape::Any,
+                }),
+            }
         }
 
         // Resolved import - treat as a tuple of exported bindings
